@@ -188,7 +188,12 @@ def check_generic(rec, http, cls, fam, ranges, offers, spec, match):
         for o in offers:
             plain.quality(o)
     acc = http.parse_accept_header(hdr, cls)
+    offers_before = list(offers)
     got = acc.best_match(offers)
+    if offers != offers_before:
+        rec.violation(f"C17/{fam}:offers-list-modified-by-negotiation", f"{hdr!r}: best_match() left the application's list of offers as {offers!r}, it was {offers_before!r}", case, monitor="evaluator")
+        offers[:] = offers_before
+        return
     rec.observe("chosen_none" if got is None else "chosen_offer")
     # default= is returned only when nothing is acceptable
     for dflt in (offers[0], offers[-1], "zz-default"):
@@ -343,7 +348,12 @@ def check_lang(rec, http, DS, ranges, offers):
     plain = http.parse_accept_header(hdr, DS.Accept)
     plain.best_match(offers)
     acc = http.parse_accept_header(hdr, DS.LanguageAccept)
+    offers_before = list(offers)
     got = acc.best_match(offers)
+    if offers != offers_before:
+        rec.violation("C17/language:offers-list-modified-by-negotiation", f"{hdr!r}: best_match() left the application's list of offers as {offers!r}, it was {offers_before!r}", case, monitor="evaluator")
+        offers[:] = offers_before
+        return
     rec.observe("chosen_none" if got is None else "chosen_offer")
     for dflt in (offers[0], offers[-1], "zz-default"):
         gd = acc.best_match(offers, default=dflt)
@@ -511,6 +521,18 @@ def run(shard, rec, rng):
                         "CharsetAccept._value_matches": opt(lambda: DS.CharsetAccept._value_matches)})
     DS_Accept[0] = DS.Accept
     cfg = TIERS[shard["_tier"]]
+    # history: earlier requests of this process whose handlers edited the dictionaries they were handed (the parameters
+    # of a parameter-less Content-Type, of an upload) - none of that is any later client's Accept header
+    from werkzeug.test import EnvironBuilder
+    from werkzeug.wrappers import Request
+
+    for ct in ("application/json", "text/plain", None):
+        rq = EnvironBuilder("/", method="POST", data=b"{}", content_type=ct).get_request(Request)
+        rq.mimetype_params.setdefault("charset", "utf-8")
+        rq.mimetype_params["level"] = "1"
+    http.parse_options_header("en")[1]["q"] = "0"
+    http.parse_options_header(None)[1]["charset"] = "x"
+    rec.observe("option_dicts_edited_by_earlier_callers")
     if shard["index"] % 4 == 1:
         concurrent_negotiation(rec, rng, http, DS, 25 if shard["_tier"] == "quick" else 150)
     CH = ["utf-8", "utf8", "latin1", "iso-8859-1", "*", "ascii", "us-ascii", "x-unknown"]
